@@ -1,6 +1,6 @@
 """C03 - documents built from Markdown constructs parse to the tree they were built from (E2)."""
 import itertools
-from mc import core, trees, inlines, leafspell
+from mc import core, trees, inlines, leafspell, inlinespell
 from models.cm_normalize import normalize_html
 
 ID = 'C03'
@@ -38,6 +38,7 @@ def jobs(tier):
             js.append(('nesting', n, 3, 1, s, 16))
     js += inlines.jobs(b['inline'])
     js += leafspell.jobs()
+    js += inlinespell.jobs()
     return js
 
 
@@ -175,6 +176,30 @@ def run_job(job):
             r.outcome('nesting')
     elif kind == 'inline':
         inlines.run_job(r, job, render, normalize_html)
+    elif kind == 'inlinespell':
+        for case in inlinespell.cases_of_job(job):
+            r.states += 1
+            for ctx in inlinespell.CONTEXTS:
+                x = inlinespell.in_context(case, ctx)
+                if x is None:
+                    r.skip('inline spelling not placed in this context (side condition of the writer)')
+                    continue
+                md, want = x
+                r.transitions += 1
+                try:
+                    got = render(md)
+                except core.EvalTimeout:
+                    r.fail(dict(markdown=md, expected_html=want), 'timeout')
+                    continue
+                except Exception as e:
+                    r.fail(dict(markdown=md, expected_html=want), core.exc_sig(e), repr(e)[:200])
+                    continue
+                r.validated += 1
+                if normalize_html(got) != normalize_html(want):
+                    r.fail(dict(markdown=md, expected_html=want, family=case[0], context=ctx), 'inline-spelling-html-differs:' + case[0],
+                           expected=want, observed=got)
+            r.outcome('inline-spelling:' + case[0])
+        r.sample(dict(space='inline spellings', family=job[1]), 1)
     elif kind == 'leafspell':
         for case in leafspell.cases_of_job(job):
             r.states += 1
